@@ -1067,7 +1067,7 @@ func (a *xAnalysis) addState(m map[int][]*xState, b int, s *xState) {
 	}
 }
 
-const xSoftStates = 120
+const xSoftStates = 200
 
 // paramJoin merges s into o when every register (and the compare operands) of s equals the one of o plus a constant:
 // o.reg + (c/g) t with a fresh 0 <= t <= g, g = gcd of the constants. The facts kept are those of either state that, shifted
